@@ -8,3 +8,11 @@ Theorem C19_words_preserved : forall (indent : nat) (t : str),
   words is_space (reflow is_space indent t) = words is_space t.
 Proof. exact (C19_words is_space is_space_SP is_space_NL). Qed.
 Print Assumptions C19_words_preserved.
+
+(* shape: the output is the words of the input, each written whole and in order, with exactly one separator between two
+   consecutive words - a single blank, or a newline followed by the indentation (Proofs/ReflowShape.v) *)
+Require ReflowShape.
+Theorem C19_shape : forall (indent : nat) (t : str),
+  ReflowShape.Shaped indent (words is_space t) (reflow is_space indent t).
+Proof. exact (ReflowShape.C19_shape is_space). Qed.
+Print Assumptions C19_shape.
